@@ -193,12 +193,15 @@ Fixpoint frag_items (pv sv bound : N) (k : nat) (scg : list N) (fl : list (N * n
       end
   end.
 
-(* STAGE 4a (stage 3b + early return `ret e`; stage 3b = stage 3a + top-level functions and their calls, recursion included):
-   the outer statements are  `print` external ; global definitions ; `start :: fn do ... end`  in this order, start
-   last.  A global definition is  g :: e  (e an expression of the fragment over the earlier globals and functions) or
+(* STAGE 4b (4a + outer definitions in any order the resolver allows, also after `start`; 4a = 3b + early return
+   `ret e`; 3b = 3a + top-level functions and their calls, recursion included):
+   the outer statements are  `print` external, then global definitions in the order the resolver gives them;
+   `start :: fn do ... end` is one of them (a function without parameters, anywhere in the list) and is called after
+   the last one.  (The `sv` argument of the predicates below is instantiated with `bound`, an id no definition can
+   have: start is an ordinary function.)  A global definition is  g :: e  (e an expression of the fragment over the earlier globals and functions) or
    f :: fn p1: T1, ..., pn: Tn -> T do ... end  (a function: its body sees the earlier globals, the earlier functions,
    itself and its parameters; its value is the value of its last statement if that is an expression, nil otherwise).
-   The body of a function or of start (and the branches of if-expressions anywhere) consists of
+   The body of a function (and the branches of if-expressions anywhere) consists of
      - definitions (constant or mutable) of int/bool-valued expressions, expression statements, nested blocks,
      - assignments  x = e, x += e, x -= e, x *= e  to variables in scope (parameters, locals and global values),
      - `ret e` anywhere in a function or in start (inside if-branches and loops too): the call ends with the value of e,
@@ -214,17 +217,11 @@ Fixpoint frag_items (pv sv bound : N) (k : nat) (scg : list N) (fl : list (N * n
 Definition frag (k : nat) (r : resolved) : bool :=
   let bound := N.of_nat (length (r_vars r)) + 1 in
   match r_stmts r with
-  | SExternalDefinition name pv _ _ _ :: rest =>
-      match split_last rest with
-      | Some (gs, SDefinition _ sv _ _ (EFunction _ [] _ body _ _) _) =>
-          String.eqb name "print"
-          && match find_start (r_vars r) with Some s => s =? sv | None => false end
-          && negb (pv =? sv) && (pv <? bound) && (sv <? bound)
-          && match frag_items pv sv bound k [] [] gs with
-             | Some (scg, fl) => is_some (frag_stmts pv sv bound fl k scg body)
-             | None => false
-             end
-      | _ => false
-      end
+  | SExternalDefinition name pv _ _ _ :: items =>
+      String.eqb name "print" && (pv <? bound)
+      && match find_start (r_vars r), frag_items pv bound bound k [] [] items with
+         | Some s, Some (scg, fl) => match fun_arity fl s with Some O => true | _ => false end
+         | _, _ => false
+         end
   | _ => false
   end.
